@@ -352,6 +352,7 @@ Section WithFacts.
                   | [] => Ok d
                   | (k, nk) :: l' =>
                       if py_eq (key_to_value k) nk then go l' d
+                      else if negb (hashable nk) then go l' d      (* reported below; the entry keeps its key *)
                       else
                         do nkk <- value_key "__normalize_mapping_per_keysrules" nk;
                         match assoc_get k d with
@@ -361,7 +362,16 @@ Section WithFacts.
                             else go l' (assoc_del k (assoc_set nkk v d))
                         end
                   end) result d;
-      Ok {| n_map := assoc_set field (VDict d') (n_map ns1); n_errs := n_errs ns1 |}.
+      (* one custom error per key that normalization turned into an unhashable value *)
+      do ns2 <- (fix rep (l : dict) (ns : nstate) : res nstate :=
+                   match l with
+                   | [] => Ok ns
+                   | (k, nk) :: l' =>
+                       if negb (py_eq (key_to_value k) nk) && negb (hashable nk)
+                       then do ns' <- nfile x ns field "CUSTOM" [VStr "Normalized keys must be hashable."]; rep l' ns'
+                       else rep l' ns
+                   end) result ns1;
+      Ok {| n_map := assoc_set field (VDict d') (n_map ns2); n_errs := n_errs ns2 |}.
 
     Definition norm_valuesrules (x : ctx) (ns : nstate) (field : key) (d : dict) (vrules : value) : res nstate :=
       let cx := nchild x (n_map ns) (x_cfg x) (map (fun kv => (fst kv, vrules)) d) d
